@@ -78,6 +78,14 @@ def _seed_store(run):
     stores = [n for n in own_nodes(fi.node) if isinstance(n, ast.Assign) and any(norm(t) == "self._grad" for t in n.targets)
               and not is_none_value(n.value)]
     if len(stores) != 1 or not isinstance(stores[0].value, ast.Name):
+        # the seed is written in several steps: judge the ordering directly
+        cfg = build_cfg(run, fi, switch_assumptions(fi, track=True, extra={"self.constant": False, "grad is not None": True}))
+        raises = [n for n, s in cfg.stmt.items() if isinstance(s, ast.Raise) and cfg.reachable(n)]
+        early = [s for s in stores if cfg.node_for(s) is not None and any(cfg.node_for(s) in nx.ancestors(cfg.g, r) for r in raises)]
+        if early:
+            run.ob("R14.2", loc(fi, early[0]), fi.short, "rejection happens before the seed is stored", False,
+                   f"`{norm(early[0])[:50]}` (line {early[0].lineno}) precedes the broadcast validation: a rejected seed is left in .grad")
+            return fi, None
         raise AnalysisError(f"{fi.short}: expected exactly one store `self._grad = <name>` of the seed")
     return fi, stores[0]
 
@@ -89,6 +97,8 @@ def _like_self_data(v: ast.AST) -> bool:
 
 def r14_2(run):
     fi, st = _seed_store(run)
+    if st is None:
+        return
     g = st.value.id
     cfg = build_cfg(run, fi, switch_assumptions(fi, track=True, extra={"self.constant": False}))
     ns = cfg.node_for(st)
